@@ -89,7 +89,7 @@ func NewKV(name string, v byte) *KV {
 	jmpPos := w.Len()
 	emit.Instruction(bw, opcode.JMPLE, []byte{0}) // patched below
 	emit.Opcodes(bw, opcode.LDARG0, opcode.DEC, opcode.STARG0)
-	emit.Opcodes(bw, opcode.LDARG1)                             // value
+	emit.Opcodes(bw, opcode.LDARG1)                            // value
 	emit.Opcodes(bw, opcode.LDARG1, opcode.LDARG0, opcode.CAT) // key = seed || i
 	getCtx()
 	emit.Syscall(bw, interopnames.SystemStoragePut)
